@@ -591,8 +591,27 @@ func (la *LockAnalysis) updateEntries() bool {
 						continue
 					}
 					fv, ok := (*op).(*ssa.Function)
-					if _, isMC := in.(*ssa.MakeClosure); isMC {
+					if mcIn, isMC := in.(*ssa.MakeClosure); isMC {
 						ok = false
+						// a bound-method value (x.m used as a function value) is a synthetic
+						// wrapper around the method: the method may be invoked from anywhere
+						if w, isF := mcIn.Fn.(*ssa.Function); isF && w.Synthetic != "" && w.Object() != nil {
+							if tf, isTF := w.Object().(*types.Func); isTF {
+								if target := w.Prog.FuncValue(tf); target != nil && la.inPkg[target] {
+									get(target).bad = true
+								}
+							}
+						}
+					}
+					// method expressions / thunks used as values
+					if ok && !la.inPkg[fv] && fv.Synthetic != "" && fv.Object() != nil {
+						if tf, isTF := fv.Object().(*types.Func); isTF {
+							if target := fv.Prog.FuncValue(tf); target != nil && la.inPkg[target] {
+								if c, isCall := in.(ssa.CallInstruction); !isCall || c.Common().Value != ssa.Value(fv) {
+									get(target).bad = true
+								}
+							}
+						}
 					}
 					if ok && la.inPkg[fv] {
 						if c, isCall := in.(ssa.CallInstruction); isCall && c.Common().Value == fv {
